@@ -130,6 +130,8 @@ func (mod *Module) findIdentityBase(baseStr string) (*resolvedIdentity, []error)
 func (ms *Modules) resolveIdentities() []error {
 	defer ms.typeDict.identities.mu.Unlock()
 	ms.typeDict.identities.mu.Lock()
+	verifHook("id.enter", ms)
+	defer verifHook("id.exit", ms)
 
 	var errs []error
 
